@@ -425,7 +425,9 @@ VP_REQUIRE_LABELS (build_d, C09_BUILD_LABELS)
 // 4. builders again, at and around the special cases an implementation could single out: previous contents from the
 //    structured generator, parameters 0 / 2^-k / +-1 +- 2^-k / up to 2^20, angles +-0 / 2^-k / j*pi/2 +- 2^-k, axes of
 //    length 1 +- 2^-k (k = 4 .. digits+3), points with coordinates up to 2^20.  Same oracle and bounds as build_*:
-//    measured worst (C09_MEASURE, 4e6 cases per type): see the comment at the sub-check definitions.
+//    measured worst (C09_MEASURE, 1.2e6 cases per type): setAxisAngle slot 4.7 eps, |M M^T - I| 9.2 eps, |det - 1| 5.6 eps
+//    (bounds 24 / 48 / 48); setEulerAngles 1.05 / 2.2 / 2.0 (6 / 12 / 12); setRotation 0.27 / 0.72 / 0.72 (2 / 4 / 4);
+//    p * M error / bound <= 0.25; all other slots exact.
 // ===================================================================================================================
 enum
 {
